@@ -97,13 +97,17 @@ def hmMark (k : List Val) : List HEntry → List HEntry
   | [] => []
   | e :: es => if e.key == k then { e with matched := true } :: es else e :: hmMark k es
 
-/-- probe phase: returns the table with matched flags and the emitted rows. -/
+/-- `has_null_key`: a join key containing a NULL never equals any key. -/
+def hasNullKey (k : List Val) : Bool := k.any Val.isNull
+
+/-- probe phase: returns the table with matched flags and the emitted rows.  A probe row whose key
+contains a NULL is unmatched by definition (no lookup). -/
 def hjProbe (padRight : Bool) (rk : List (Row → Val)) (nL : Nat) :
     List Row → List HEntry → List HEntry × List Row
   | [], m => (m, [])
   | r :: rs, m =>
     let k := keyOf rk r
-    match hmLookup k m with
+    match (if hasNullKey k then none else hmLookup k m) with
     | some e =>
       let (m', out) := hjProbe padRight rk nL rs (hmMark k m)
       (m', e.rows.map (· ++ r) ++ out)
@@ -113,9 +117,11 @@ def hjProbe (padRight : Bool) (rk : List (Row → Val)) (nL : Nat) :
 
 /-- `HashJoinExecutor<T>::execute` for T ∈ {inner, left_outer, right_outer, full_outer}. -/
 def hashJoin (t : JoinType) (lk rk : List (Row → Val)) (nL nR : Nat) (Ls Rs : List Chunk) : List Chunk :=
-  let m := hmBuild lk (flat Ls)
   let padRight := t == .rightOuter || t == .fullOuter
   let padLeft := t == .leftOuter || t == .fullOuter
+  -- left rows with a NULL in the key can not match: they enter the table only for the joins that
+  -- must still emit them padded
+  let m := hmBuild lk (if padLeft then flat Ls else (flat Ls).filter (fun l => !hasNullKey (keyOf lk l)))
   let (m', out) := hjProbe padRight rk nL (flat Rs) m
   let rest := if padLeft then
       (m'.filter (fun e => !e.matched)).flatMap (fun e => e.rows.map (· ++ nulls nR))
@@ -125,15 +131,16 @@ def hashJoin (t : JoinType) (lk rk : List (Row → Val)) (nL nR : Nat) (Ls Rs : 
 /-- `HashSemiJoinExecutor::execute`: the key SET of the right side, one output chunk per
 left chunk. -/
 def hashSemiJoin (anti : Bool) (lk rk : List (Row → Val)) (Ls Rs : List Chunk) : List Chunk :=
-  let keys := (flat Rs).map (keyOf rk)
-  Ls.map (fun c => c.filter (fun l => keys.contains (keyOf lk l) != anti))
+  let keys := ((flat Rs).map (keyOf rk)).filter (fun k => !hasNullKey k)
+  Ls.map (fun c => c.filter (fun l => (!hasNullKey (keyOf lk l) && keys.contains (keyOf lk l)) != anti))
 
 /-- `HashSemiJoinExecutor2::execute`: right rows grouped by key, residual condition evaluated
 on `left row × group`. -/
 def hashSemiJoin2 (anti : Bool) (lk rk : List (Row → Val)) (cond : Pred) (Ls Rs : List Chunk) : List Chunk :=
-  let R := flat Rs
+  let R := (flat Rs).filter (fun r => !hasNullKey (keyOf rk r))
   Ls.map (fun c => c.filter (fun l =>
-    ((R.filter (fun r => keyOf rk r == keyOf lk l)).any (fun r => holds (cond (l ++ r)))) != anti))
+    ((if hasNullKey (keyOf lk l) then [] else R.filter (fun r => keyOf rk r == keyOf lk l)).any
+      (fun r => holds (cond (l ++ r)))) != anti))
 
 /-! ## merge join -/
 
@@ -158,8 +165,8 @@ iterations). `Vec<DataValue>` is compared with the derived lexicographic order (
 def mergeLoop (padLeft padRight : Bool) (nL nR : Nat) : Nat → List KGroup → List KGroup → List Row
   | 0, _, _ => []
   | fuel + 1, (lk, lrows) :: ls, (rk, rrows) :: rs =>
-    if lk == rk then crossLR lrows rrows ++ mergeLoop padLeft padRight nL nR fuel ls rs
-    else if rowCmp lk rk == .lt then
+    if lk == rk && !hasNullKey lk then crossLR lrows rrows ++ mergeLoop padLeft padRight nL nR fuel ls rs
+    else if rowCmp lk rk == .lt || (lk == rk && hasNullKey lk) then
       (if padLeft then lrows.map (· ++ nulls nR) else []) ++
         mergeLoop padLeft padRight nL nR fuel ls ((rk, rrows) :: rs)
     else if rowCmp lk rk == .gt then
@@ -368,12 +375,15 @@ def projExec (fs : List (Row → Val)) (Xs : List Chunk) : List Chunk := Xs.map 
 def rechunk (n : Nat) (Xs : List Chunk) : List Chunk :=
   if n == 0 then [flat Xs] else builderRun n (flat Xs) []
 
-/-- The forced hypothesis of every hash / merge join theorem: on the rows at hand, structural
-equality of the key vectors (what the hash table uses) coincides with SQL equality of the keys
-(what the join condition means).  It fails exactly for NULL keys (equal structurally, UNKNOWN in
-SQL) and for keys of different integer widths (SQL-equal, structurally different). -/
-def KeysComparable (lk rk : List (Row → Val)) (L R : List Row) : Prop :=
-  ∀ l ∈ L, ∀ r ∈ R, (keyOf lk l == keyOf rk r) = holds (keysEq3 (keyOf lk l) (keyOf rk r))
+/-- key equality as the hash / merge join executors decide it: structural equality (`DataValue`'s
+derived `Eq`) of NULL-free key vectors. -/
+def jkEq (a b : List Val) : Bool := !hasNullKey a && !hasNullKey b && a == b
 
+/-- The forced hypothesis of every hash / merge join theorem: on the rows at hand, the executors' key
+equality coincides with SQL equality of the keys (what the join condition means).  NULL keys satisfy
+it by themselves (never equal on either side); what is left is that NULL-free keys that are SQL-equal
+are structurally equal — it fails for keys of different integer widths (`Int32 1` vs `Int64 1`). -/
+def KeysComparable (lk rk : List (Row → Val)) (L R : List Row) : Prop :=
+  ∀ l ∈ L, ∀ r ∈ R, jkEq (keyOf lk l) (keyOf rk r) = holds (keysEq3 (keyOf lk l) (keyOf rk r))
 
 end RlModel
